@@ -204,6 +204,7 @@ def oracle(script, obs):
     resp_bytes = None
     took_flow = False
     n_some = 0
+    sb_touched = False
     for i, (op, o) in enumerate(zip(ops, obs)):
         p = op.split(" ")
         if o == "panic":
@@ -219,9 +220,16 @@ def oracle(script, obs):
             despite = True
         if p[0] == "q_can_proceed":
             last_can = (o == "true")
+            if tag == "SendBody" and not sb_touched and last_can:
+                return ["op %d: SendBody entered with the body already reported finished (the flow that advanced is not usable: "
+                        "nothing was written and the end was not signalled)" % i]
             continue
         if p[0].startswith("q_"):
             continue
+        if tag == "SendBody" and p[0] in ("write_body", "write_sum", "write_from", "direct"):
+            if not sb_touched and p[0] == "write_body" and len(unhex(p[1])) > 0 and o.startswith("err BodyContentAfterFinish"):
+                return ["op %d: first body write in SendBody refused as 'after finish' (the flow that advanced is not usable)" % i]
+            sb_touched = True
         if p[0] == "raw_try100":
             data = unhex(p[1])
             if o == "ok #0" and (data.startswith(b"HTTP/1.1 403") or data.startswith(b"HTTP/1.1 200 OK\r\nX: y\r\n")):
@@ -286,6 +294,8 @@ def oracle(script, obs):
                 return ["op %d: from %s the graph prescribes %s, got %s" % (i, tag, want, o)]
             if o.startswith("state "):
                 tag = o.split(" ")[1]
+                if tag == "SendBody":
+                    sb_touched = False
             last_can = None
             continue
         # any other state-affecting op invalidates the remembered readiness
